@@ -988,6 +988,68 @@ pub fn random_spec(run: u64, seed: u64, profile: &str) -> Value {
         };
         ops.push(op);
     }
+    if profile == "cache" {
+        // Object bodies that a replica holds only in memory (P12 / P13): a writer whose commit re-uses an
+        // object of a foreign pack it merely indexed (so its block names a pack without that object), and a
+        // receiver that has the same body in its object cache from a discarded edit or from a pack that
+        // was deleted later, and gets the writer's block and pack file by file.
+        ops.clear();
+        let v = 1 + p.below(3);
+        let elem = |k: usize, n: usize| json!({"_id": format!("e{}", k), "v": n});
+        let doc = |els: Vec<Value>| json!({"v": v, "a\u{266d}": els});
+        let a0: Vec<Value> = (0..p.below(3)).map(|k| elem(k, 1)).collect();
+        let mut b0 = a0.clone();
+        b0.push(elem(3 + p.below(2), 1 + p.below(2)));
+        if p.chance(1, 3) && !b0.is_empty() {
+            b0.remove(0);
+        }
+        ops.push(json!({"op": "update", "r": 1, "doc": doc(a0.clone())}));
+        ops.push(json!({"op": "commit", "r": 1, "bn": 1}));
+        ops.push(json!({"op": "copy_item", "r": 0, "kind": "pack", "bn": 1, "s": 1}));
+        if p.chance(1, 4) {
+            ops.push(json!({"op": "copy_item", "r": 0, "kind": "delta", "bn": 1, "s": 1}));
+        }
+        ops.push(json!({"op": "refresh", "r": 0}));
+        ops.push(json!({"op": "update", "r": 0, "doc": doc(b0.clone())}));
+        ops.push(json!({"op": "commit", "r": 0, "bn": 2}));
+        let damage = p.chance(1, 3);
+        if damage {
+            // the writer itself loses the foreign pack and reloads
+            ops.push(json!({"op": "damage_item", "r": 0, "kind": "pack", "bn": 1, "how": "delete"}));
+            ops.push(json!({"op": "reload", "r": 0}));
+            ops.push(json!({"op": "update", "r": 0, "doc": doc(if p.chance(1, 2) { a0.clone() } else { b0.clone() })}));
+            ops.push(json!({"op": "unstage", "r": 0}));
+            ops.push(json!({"op": "reload", "r": 0}));
+        }
+        ops.push(json!({"op": "update", "r": 2, "doc": doc(if p.chance(1, 2) { a0.clone() } else { b0.clone() })}));
+        match p.below(3) {
+            0 => {}
+            1 => ops.push(json!({"op": "commit", "r": 2, "seed": p.next(), "fail": [1]})),
+            _ => ops.push(json!({"op": "export_replay", "r": 2})),
+        }
+        ops.push(json!({"op": "unstage", "r": 2}));
+        let first = if p.chance(1, 2) { "delta" } else { "pack" };
+        let second = if first == "delta" { "pack" } else { "delta" };
+        ops.push(json!({"op": "copy_item", "r": 2, "kind": first, "bn": 2, "s": 0}));
+        if p.chance(1, 2) {
+            ops.push(json!({"op": "refresh", "r": 2}));
+        }
+        ops.push(json!({"op": "copy_item", "r": 2, "kind": second, "bn": 2, "s": 0}));
+        ops.push(json!({"op": "refresh", "r": 2}));
+        if p.chance(1, 2) {
+            ops.push(json!({"op": "reload", "r": 2}));
+        }
+        if p.chance(1, 2) {
+            ops.push(json!({"op": "copy_item", "r": 2, "kind": "pack", "bn": 1, "s": 1}));
+            ops.push(json!({"op": "refresh", "r": 2}));
+        }
+        if !damage {
+            ops.push(json!({"op": "sync", "r": 2, "s": 0}));
+            ops.push(json!({"op": "sync", "r": 2, "s": 1}));
+        }
+        return json!({"run": run, "replicas": 3, "pool": *p.pick(&[1usize, 2, 4, 16]), "ops": ops, "label": format!("random:{}:{}", profile, seed),
+            "floats": false, "nasty": false, "universe": 6, "list_seed": Value::Null, "damage": damage});
+    }
     if profile == "arrays" {
         // concurrent array edits over a tiny identifier universe, frequent synchronisation
         ops.clear();
